@@ -814,7 +814,16 @@ class Plane(Generic[LTComponentT]):
             self.add(obj)
 
     def add(self, obj: LTComponentT) -> None:
-        """Place an object."""
+        """Place an object (set-like: a no-op if the object is already there)."""
+        if obj in self._objs:
+            # Filing it a second time would leave a stale grid entry behind
+            # when it is removed: find() would then report a removed object.
+            return
+        if obj in self._order:
+            # Added before and removed since: drop its old place in the
+            # insertion order, it would otherwise be iterated twice.
+            self._seq.remove(obj)
+            self._order = {o: i + 1 for (i, o) in enumerate(self._seq)}
         cells = self._cells((obj.x0, obj.y0, obj.x1, obj.y1))
         if cells is None:
             self._big.append(obj)
